@@ -19,7 +19,8 @@ LEVEL_NOTE = 'trusted: vk/wave.py decoder, vk/enc.py; the property is a relation
 DESIGN_REF = 'DESIGN.md section 3 C05'
 LEVEL = 'exploration'
 RULE = ('Cases: (circuit, delays, one-transition stimulus, WaveSim class/options, LogicSim options). Non-trivial iff some line is a hazard-free constant '
-        'according to 8-valued simulation while another line of the same run carries >= 2 transitions. Distinct = digest of all case fields.')
+        'according to 8-valued simulation while another line of the same run carries >= 2 transitions. Distinct = digest of all case fields.'
+        ' One large case per shard; a share of the cases captures at a finite sampling time.')
 ASSUMPTIONS = ['stimulus values are 0, 1, R, F (one transition at most per input, as s[0..2] can express)', 'delays >= 0 on the dyadic grid']
 REACH = {'logic_sim.m8': ('logic_sim.py', 184, 260), 'wave_sim._wave_eval': ('wave_sim.py', 155, 265)}
 
